@@ -142,6 +142,7 @@ func c13RejectedNssai(c *core.Ctx, k *core.Case) {
 	}
 	c.Eval(1)
 	e := nasConvert.RejectedNssaiToNas(inPlmn, inTa)
+	c.Hold(k, "nasConvert.RejectedNssaiToNas", e.Buffer)
 	got, err := refconv.ParseRejectedNssai(e.GetRejectedNSSAIContents())
 	if err != nil || int(e.GetLen()) != len(e.Buffer) || len(got) != len(want) {
 		c.Fail(k, "rejected-nssai-layout", fmt.Sprintf("RejectedNssaiToNas: Len %d Buffer %x; spec decoder %+v %v; want %+v", e.GetLen(), e.Buffer, got, err, want))
